@@ -52,7 +52,8 @@ Section OkT.
     - apply bind_NF; [nfs|intros]. apply bind_NF; [nfs|intros]. apply bind_NF; [unfold new_writer; nfs|intros].
       apply bind_NF; [apply NF_catch, NF_run_hops|intros]. apply bind_NF; [nfs|intros s1].
       apply bind_NF; [destruct (newp s1); nfs|intros]. apply bind_NF; [destruct (is_dirty (wst s1)); [apply NF_wr|nfs]|intros].
-      apply bind_NF; [apply NF_fl|intros; nfs]. Qed.
+      apply bind_NF; [apply NF_fl|intros]. apply bind_NF; [nfs|intros].
+      destruct (cs_fail cs _ name args); [apply NF_process_error|nfs]. Qed.
   Lemma NF_process_help req : Spec (process_help okT cs req) NFp.
   Proof. unfold process_help. apply bind_NF; [unfold new_writer; nfs|intros]. apply bind_NF; [apply NF_run_hops|intros].
     apply bind_NF; [nfs|intros s1]. apply bind_NF; [destruct (is_dirty (wst s1)); [apply NF_wr|nfs]|intros; apply NF_fl]. Qed.
@@ -286,13 +287,21 @@ Section Refine3.
       - exists s4. auto 10. }
     destruct E5 as (s5 & E5 & g1 & g2 & g3 & g4 & g5). unfold bind at 1. rewrite E5.
     destruct (fl_ok s5) as (s6 & E6 & (h1&h2&h3&h4&h5&_)). unfold bind at 1. rewrite E6.
-    exists s6. split; [reflexivity|].
+    unfold bind at 1. unfold reraise.
+    assert (E7 : exists s7, (match cs_fail cs (length (hcalls s)) name args with Some e => process_error okT e | None => ret tt end) s6 = (Ok tt, s7)
+              /\ ed s7 = ed s6 /\ ig s7 = ig s6 /\ hist s7 = hist s6 /\ prompt s7 = prompt s6 /\ hcalls s7 = hcalls s6).
+    { destruct (cs_fail cs (length (hcalls s)) name args) as [e|].
+      - destruct (Tail_ok _ s6 _ _ (Tail_process_error e) (surjective_pairing _)) as (Er & e1 & e2 & e3 & e4 & e5).
+        destruct (process_error okT e s6) as [r s7] eqn:E. cbn [fst snd] in *. subst r. exists s7. auto 10.
+      - exists s6. auto 10. }
+    destruct E7 as (s7 & E7 & i1 & i2 & i3 & i4 & i5). rewrite E7.
+    exists s7. split; [reflexivity|].
     assert (Es4 : ed s4 = ed s3 /\ ig s4 = ig s3 /\ hist s4 = hist s3 /\ hcalls s4 = hcalls s3) by (subst s4; destruct (newp s3); auto).
     destruct Es4 as (k1 & k2 & k3 & k4).
     assert (z1 : ed s2 = ed s) by reflexivity. assert (z2 : ig s2 = ig s) by reflexivity. assert (z3 : hist s2 = hist s) by reflexivity.
     split; [congruence|]. split; [congruence|]. split; [congruence|]. split.
-    - rewrite h5, g4, k4, f5. reflexivity.
-    - rewrite h4, g5. subst s4. rewrite N3. unfold s2, set_newp, set_wst, log_call; cbn [newp].
+    - rewrite i5, h5, g4, k4, f5. reflexivity.
+    - rewrite i4, h4, g5. subst s4. rewrite N3. unfold s2, set_newp, set_wst, log_call; cbn [newp].
       pose proof (last_prompt_newp hs (prompt s) None) as L. cbn in L. fold hs. rewrite <- L.
       destruct (fold_left newp_hop hs None); cbn [prompt set_prompt_f]; [reflexivity|]. rewrite f4. reflexivity.
   Qed.
@@ -538,9 +547,12 @@ Section EnterBytes.
   Variables cp hc : nat.
   Notation SRel := (SRel cp hc).
 
-  Lemma process_command_bytes name args s : cs_parse cs name args = None ->
-    exists s' O, process_command okT cs handler name args s = (Ok tt, s') /\ out (sk s') = out (sk s) ++ O
-      /\ ops_bytes O = cmd_bytes (handler (length (hcalls s)) name args).
+  (* the handler part of process_command: everything up to the flush; what follows is the error line of a processor that rejects the
+     command after its output (cs_fail), or nothing *)
+  Lemma process_command_prefix name args s : cs_parse cs name args = None ->
+    exists s6 O, process_command okT cs handler name args s =
+                   (match cs_fail cs (length (hcalls s)) name args with Some e => process_error okT e | None => ret tt end) s6
+      /\ out (sk s6) = out (sk s) ++ O /\ ops_bytes O = cmd_bytes (handler (length (hcalls s)) name args).
   Proof.
     intros Hp. unfold process_command. rewrite Hp, bind_get, bind_modify. unfold new_writer. rewrite bind_modify.
     set (s2 := set_newp None (set_wst w0 (log_call (name, args) s))).
@@ -559,17 +571,24 @@ Section EnterBytes.
       - exists s4. rewrite app_nil_r. auto. }
     destruct E5 as (s5 & E5 & O5). unfold bind at 1. rewrite E5.
     destruct (fl_ok s5) as (s6 & E6 & (_&_&_&_&_&_&_&h8)). unfold bind at 1. rewrite E6.
+    unfold bind at 1. unfold reraise.
     exists s6. eexists. split; [reflexivity|]. split.
     - rewrite h8, O5, Hs4, Out3. unfold s2, set_newp, set_wst, log_call; cbn [sk]. rewrite <- !app_assoc. reflexivity.
     - rewrite !ops_bytes_app, B3. unfold cmd_bytes. fold hs. f_equal.
       destruct (Framing.needs_break (Framing.hops_bytes hs)); [rewrite ops_bytes_wop; reflexivity|reflexivity].
   Qed.
+  Lemma process_command_bytes name args s : cs_parse cs name args = None -> cs_fail cs (length (hcalls s)) name args = None ->
+    exists s' O, process_command okT cs handler name args s = (Ok tt, s') /\ out (sk s') = out (sk s) ++ O
+      /\ ops_bytes O = cmd_bytes (handler (length (hcalls s)) name args).
+  Proof.
+    intros Hp Hfail. destruct (process_command_prefix name args s Hp) as (s6 & O & E & Out & B). rewrite Hfail in E. exists s6, O. auto.
+  Qed.
 
-  Theorem on_enter_bytes s a n args : SRel s a -> dispatch feats cs a = [(n, args)] ->
+  Theorem on_enter_bytes s a n args : SRel s a -> dispatch feats cs a = [(n, args)] -> cs_fail cs (acalls a) n args = None ->
     exists s' O, on_enter okT feats cs handler s = (Ok tt, s') /\ out (sk s') = out (sk s) ++ O /\
       ops_bytes O = Framing.frame_enter (handler (acalls a) n args) (last_prompt (aprompt a) (handler (acalls a) n args)) /\ last_is_flush O.
   Proof.
-    intros HS Hd.
+    intros HS Hd Hfail.
     destruct (on_enter okT feats cs handler s) as [r s'] eqn:E.
     destruct (on_enter_refines feats cs handler cp hc s a r s' HS E) as (-> & HS' & _ & _).
     exists s'. unfold on_enter in E. unfold bind at 1 in E.
@@ -597,7 +616,8 @@ Section EnterBytes.
     assert (Epi : process_input okT feats cs handler raw empty s3 = process_command okT cs handler n args s3).
     { unfold process_input. rewrite Ets. cbn [from_tokens]. destruct Ehelp as [-> | (hr & Hr & ->)]; [reflexivity|].
       destruct (f_help feats); [rewrite Hr, bind_lift_some|]; reflexivity. }
-    destruct (process_command_bytes n args s3 Epar) as (s4 & O4 & E4 & Out4 & B4).
+    assert (Hfail3 : cs_fail cs (length (hcalls s3)) n args = None) by (replace (length (hcalls s3)) with (acalls a) by (unfold s3; cbn; congruence); exact Hfail).
+    destruct (process_command_bytes n args s3 Epar Hfail3) as (s4 & O4 & E4 & Out4 & B4).
     unfold bind at 1 in E. unfold catch in E. rewrite Epi, E4 in E. rewrite bind_modify in E.
     set (s5 := set_ed (ed_clear (ed s4)) s4) in *.
     unfold bind at 1 in E. unfold reraise at 1 in E. rewrite bind_get in E.
